@@ -344,3 +344,22 @@ PROPS["C15"] = {
     "assumptions": COMMON_ASSUME + ["after its hostile item the peer answers close, end and detach"],
     "design_ref": "DESIGN.md §7 C15",
 }
+
+PROPS["C14"] = {
+    "title": "Failures propagate: no call hangs, every handle learns why",
+    "module": "Theorems.C14",
+    "theorems": [
+        "Amqp.FailProp.level_named",
+        "Amqp.FailProp.condition_carried",
+        "Amqp.FailProp.nobody_left_waiting",
+        "Amqp.FailProp.woken_stop_waiting",
+        "Amqp.FailProp.abandonAll_wakes_all",
+    ],
+    "harness": ["failprop"],
+    "gen_files": [],
+    "technique": "Lean 4 proof over histories of sends, settlements and stop events (waiter bookkeeping) and by cases over failure causes (error class) + engine-level failure injection under a paused clock with bounded waits, task counting and a panic hook",
+    "level_text": "Partial by nature. Machine-checked on the model: for every history of unsettled sends and settlements, once the session endpoint is dropped — or the sender processes a closing detach from the peer — every send that still awaited an outcome is woken exactly once with an error and nothing waits any more; for every failure cause (transport, peer close / end / detach, with and without error) the error class a handle reports names the level that stopped and carries the peer's condition exactly when the peer supplied one. Measured on the implementation, because no model of it can exhibit them: that calls return in bounded time, that engine tasks terminate and that nothing panics. A client with two sessions, two senders, a receiver and five operations in progress (a send awaiting its outcome, the future of an earlier send_batchable, a send awaiting credit, a recv, an attach the peer never answers) is hit by each of 19 failures at several moments; every operation the failure reaches must have completed 500 virtual ms later with an error of the right level and condition (compared with the model's class), every operation issued afterwards and the whole teardown must return within 5 virtual seconds, what the failure does not reach must keep working, the connection handle must report the transport error / the peer's condition itself, and the runtime's count of live tasks must return to zero.",
+    "level_note": "Trusted: Lean kernel; the hand-written model Amqp/FailProp.lean (its error classes are compared with the implementation's error values for every cause; its waiter bookkeeping mirrors Session::drop and UnsettledMessage::abandon_waiter, tied only by the hang / no-hang observations); tokio's paused clock; RuntimeMetrics::num_alive_tasks. Runtime behaviour the model cannot exhibit: real scheduling, OS-level transport errors other than a dropped in-memory stream, timing of wake-ups. Two recorded findings remain (known_findings.txt): futures of earlier send_batchable calls stay pending after a non-closing detach from the peer, and fail with an uninformative IllegalState after a closing one.",
+    "assumptions": COMMON_ASSUME + ["a dropped in-memory duplex stream stands for a broken transport"],
+    "design_ref": "DESIGN.md §7 C14",
+}
